@@ -59,6 +59,9 @@ func (g *gen) Add(name string, typs []types.Type) (string, error) {
 	if params.Len() < 2 {
 		return "", fmt.Errorf("%s, the first argument is a function, but wanted a function with more than one argument", name)
 	}
+	if sig.Variadic() {
+		return "", fmt.Errorf("%s, the first argument, %s, is a variadic function, which is not supported", name, g.TypeString(sig))
+	}
 	return g.SetFuncName(name, derive.RenameBlankIdentifier(sig))
 }
 
